@@ -182,6 +182,9 @@ class UB:
         if not d or d[2] != "call" or not strip_generics(callee_def(d[3])).endswith("Iterator::next"):
             return None
         o = flow.origin(b, d[3]["args"][0])
+        tb = self._iter_table(b, d[3]["args"][0])
+        if tb is not None and all(isinstance(e, str) and e == "*" for e in pr[2:]):
+            return max(tb) if tb else 0
         arrs = []
         for bb, t in o.calls:
             if strip_generics(callee_def(t)).endswith("IntoIterator::into_iter"):
@@ -209,6 +212,48 @@ class UB:
             else:
                 return None
         return best
+
+    _ADAPT = re.compile(r"(IntoIterator::into_iter|Iterator::(take|skip|rev|copied|cloned|step_by|by_ref)|slice::.*::iter|<\[.*\]>::iter|core::slice::iter|Deref::deref|as_slice|array::.*::iter|array::iter)$")
+
+    def _iter_table(self, b, op, depth=0):
+        """Values of the constant table an iterator (through take/skip/rev/copied ...) walks over, or None."""
+        if depth > 10:
+            return None
+        k = op_const(op)
+        if k is not None and isinstance(k, dict):
+            if k.get("from") and k["from"] in self.F.consts:
+                try:
+                    return list(self.F.const_array(k["from"]))
+                except Exception:
+                    return None
+            m = re.search(r"promoted\[(\d+)\]$", k.get("s", "") or "")
+            if m:
+                proms = b.j.get("promoted") or []
+                i = int(m.group(1))
+                if i < len(proms):
+                    for bl in proms[i]["blocks"]:
+                        for s in bl["s"]:
+                            if s["k"] == "assign" and s["r"]["k"] == "use":
+                                kk = op_const(s["r"]["op"])
+                                if kk and kk.get("from") and kk["from"] in self.F.consts:
+                                    try:
+                                        return list(self.F.const_array(kk["from"]))
+                                    except Exception:
+                                        return None
+            return None
+        p = op_place(op)
+        if p is None:
+            return None
+        d = b.single_def(p["l"])
+        if not d:
+            return None
+        if d[2] == "assign" and d[3]["k"] in ("use", "cast"):
+            return self._iter_table(b, d[3]["op"], depth + 1)
+        if d[2] == "assign" and d[3]["k"] in ("ref", "rawptr"):
+            return self._iter_table(b, {"c": d[3]["place"]}, depth + 1) if not d[3]["place"]["p"] or d[3]["place"]["p"] == ["*"] else None
+        if d[2] == "call" and d[3]["args"] and self._ADAPT.search(strip_generics(callee_def(d[3]))):
+            return self._iter_table(b, d[3]["args"][0], depth + 1)
+        return None
 
     def place_adt(self, b, p):
         """ADT path owning the last named field of a place (best effort, from type strings)."""
